@@ -75,11 +75,21 @@ def oracle(ctx, seeds=None):
             m5 = {'avg': {'type': 'data_average', 'data': list(mod.list_var())[0], 'frequency': fr}}
             s5.solve(f0, cfl, stop={'maxit': N + M}, monitors=m5)
             out['m5'] = (fr, m5['avg']['output'])
+            # monitors across a restart from an iteration tag that is not a multiple of the frequency
+            s6 = mk()
+            fr6 = int(rng.integers(2, 5))
+            N6 = N if N % fr6 else N + 1
+            m6 = {'avg': {'type': 'data_average', 'data': list(mod.list_var())[0], 'frequency': fr6}, 'res': {'type': 'residual', 'frequency': fr6}}
+            mid6 = s6.solve(f0, cfl, stop={'maxit': N6}, monitors=m6)[-1]
+            s6.restart(mid6, cfl, stop={'maxit': M + 3}, monitors=m6)
+            out['m6'] = (fr6, N6, M + 3, list(m6['avg']['output']._it), list(m6['res']['output']._it))
             traj = [f0.copy()] + [mk().solve(f0, cfl, stop={'maxit': k})[-1] for k in range(1, N + M + 1)]
             out['traj'] = traj
             return out
         ok, out = impl.guarded(run)
         res.case((name, model, N, M))
+        if not ok and 'LinAlgError' in str(out):
+            res.count('skipped-singular-implicit-system'); continue
         if not ok:
             res.fail('%s:raised' % name, out, rp); continue
         a = out['single']
@@ -99,6 +109,14 @@ def oracle(ctx, seeds=None):
             d = max(float(np.max(np.abs(x - y))) for x, y in zip(a.data, sp.data))
             res.fail(name + ':restart', "solve(%d)+restart(%d): data diff %r, time %r vs %r, totnit %r (expected %d), it tag %r (mid it %r)" %
                      (N, M, d, sp.time, a.time, out['split_tot'], N + M, sp.it, out['mid_it']), rp)
+        fr6, N6, M6, its_avg, its_res = out['m6']
+        exp6 = [k for k in range(0, N6 + M6 + 1) if k % fr6 == 0]
+        # the restart call re-parses the monitors at its first (unchanged) state: that iteration may appear twice
+        def dedup(l):
+            return [x for j, x in enumerate(l) if j == 0 or x != l[j - 1]]
+        for nm, its in (('data_average', its_avg), ('residual', its_res)):
+            if dedup(its) != exp6:
+                res.fail(name + ':monitor-iterations-after-restart:' + nm, "%s monitor with frequency %d over solve(%d)+restart(%d) recorded at iterations %r, expected the multiples %r" % (nm, fr6, N6, M6, its, exp6), rp)
         fr, mon = out['m5']
         its = list(mon._it)
         exp_its = [k for k in range(0, N + M + 1) if k % fr == 0]
